@@ -27,6 +27,24 @@ def class_states(cls_node: ast.ClassDef, ev):
     raise Unsupported(init, 'states passed to super().__init__ not found')
 
 
+def find_method(cls_node: ast.ClassDef, name: str, depth=0):
+    """method `name` of the class or of a base class defined in the same module"""
+    for f in cls_node.body:
+        if isinstance(f, ast.FunctionDef) and f.name == name:
+            return f
+    mod = getattr(cls_node, '_parent', None)
+    if mod is None or depth > 4:
+        return None
+    for b in cls_node.bases:
+        bn = b.id if isinstance(b, ast.Name) else (b.attr if isinstance(b, ast.Attribute) else None)
+        for c in getattr(mod, 'body', []):
+            if isinstance(c, ast.ClassDef) and c.name == bn:
+                r = find_method(c, name, depth + 1)
+                if r is not None:
+                    return r
+    return None
+
+
 class Pred:
     """evaluates the guard of the missing-data branch of partial() for one symbol with use_ambiguities=False"""
 
@@ -55,13 +73,14 @@ class Pred:
             return getattr(v, e.func.attr)()
         if isinstance(e, ast.Call) and isinstance(e.func, ast.Name) and e.func.id == 'ord' and len(e.args) == 1:
             return ord(self.val(e.args[0], ch))
-        if isinstance(e, ast.Call) and isinstance(e.func, ast.Attribute) and e.func.attr == 'encoding' and len(e.args) == 1 \
+        if isinstance(e, ast.Call) and isinstance(e.func, ast.Attribute) and len(e.args) == 1 and not e.keywords \
                 and isinstance(e.func.value, ast.Name) and e.func.value.id == 'self':
-            enc = next((f for f in self.cls_node.body if isinstance(f, ast.FunctionDef) and f.name == 'encoding'), None)
-            ret = [n for n in ast.walk(enc) if isinstance(n, ast.Return)] if enc else []
-            if len(ret) != 1:
-                raise Unsupported(e, 'encoding() not a single return')
-            return Pred(self.ev, self.cls_node, enc.args.args[1].arg, '').val(ret[0].value, self.val(e.args[0], ch))
+            # self.encoding(c), self.is_state(c) …: a one-argument method of the class (or of a base class in the same module) that is a single return
+            enc = find_method(self.cls_node, e.func.attr)
+            body = [b for b in enc.body if not (isinstance(b, ast.Expr) and isinstance(b.value, ast.Constant))] if enc else []
+            if len(body) != 1 or not isinstance(body[0], ast.Return) or len(enc.args.args) != 2:
+                raise Unsupported(e, f"{e.func.attr}() not a single return of one argument")
+            return Pred(self.ev, self.cls_node, enc.args.args[1].arg, '').val(body[0].value, self.val(e.args[0], ch))
         if isinstance(e, ast.BoolOp):
             vals = [self.val(x, ch) for x in e.values]
             return all(vals) if isinstance(e.op, ast.And) else any(vals)
@@ -336,6 +355,23 @@ def check_names(ctx, rep):
                   f"with keep_branch_lengths the two root branches are merged: whichever child's entry survives `blens[:-1]` must carry the sum, so both `{a}` and `{b}` "
                   f"need the other's length added; found only {sorted(adds)} — the tree's root branch is wrong whenever the surviving child is the other one "
                   f"(depends on the order the children are written in)")
+    # (c') the kept lengths are the ones written in the newick string: the element of the list is the node's edge_length (a cast at most) — a floor, a clamp or a
+    # rounding changes the tree that was written down (and a floored zero-length branch makes the likelihood depend on how a polytomy was resolved)
+    comp = None
+    for st in ast.walk(fj):
+        if isinstance(st, ast.Assign) and isinstance(st.value, ast.ListComp) and any(isinstance(x, ast.Attribute) and x.attr == 'edge_length' for x in ast.walk(st.value.elt)):
+            comp = st.value
+    key = 'UnRootedTreeModel.from_json::kept-lengths-are-the-newick-lengths'
+    if comp is None:
+        rep.undecided('C02.N', key, where(tm, fj), 'list of kept branch lengths not recognised')
+    else:
+        e = comp.elt
+        while isinstance(e, ast.Call) and isinstance(e.func, ast.Name) and e.func.id in ('float',) and len(e.args) == 1:
+            e = e.args[0]
+        tgt = comp.generators[0].target
+        plain = isinstance(e, ast.Attribute) and e.attr == 'edge_length' and isinstance(e.value, ast.Name) and isinstance(tgt, ast.Name) and e.value.id == tgt.id
+        rep.check('C02.N', key, plain, where(tm, comp), {'element': ast.unparse(comp.elt)},
+                  f"with keep_branch_lengths the branch-length parameter must receive the lengths of the newick string; the element is `{ast.unparse(comp.elt)}`, which alters them")
     # (d) sequences are put in Taxa order by taxon name
     am = ctx.prog.module(AMOD)
     al = am.classes.get('Alignment')
@@ -467,27 +503,8 @@ def check_lookup_datatypes(ctx, rep):
         raise AnalysisError(f"only {n} lookup-based data types found (GeneralDataType / CodonDataType expected)")
 
 
-def run(ctx, rep):
-    rep.explanation = (
-        "C02.M: for every one of the 128 code points and both table-driven data types, the tip vector that partial(c, use_ambiguities=False) returns "
-        "(decided from the folded tables and the string literal of the missing-data branch) equals the column the tip-state kernels select for "
-        "encoding(c) clamped to the state count: one-hot for a definite state, the appended all-ones column otherwise.  Extracted facts: the literal "
-        "equals {c : STATES[c] < state_count}; the missing branch returns all ones; compress_alignment_states clamps at state_count; both tip-state "
-        "kernels append exactly one column of ones on the last axis of the tip matrices and gather on that axis."
-    )
-    rep.rule('C02.M', "tip-state and tip-partial (ambiguities off) representations select the same tip vector for every symbol")
-    rep.rule('C02.N', "name-to-index plumbing: sequences sorted into Taxa order by name, tips emitted in Taxa order by name, leaf index = position of the taxon label, "
-                      "polytomies resolved on every path before indexing, both root branches carry the merged length, no memo on the shared SitePattern that ignores an argument")
-    rep.not_decided += ["numerical invariance under permutations of taxa / sequences / children / columns", "rerooting invariance of the pruning itself (see C01 for the kernels)",
-                        "pattern compression weights (C01.W)"]
-    try:
-        check_lookup_datatypes(ctx, rep)
-    except Unsupported as u:
-        rep.undecided('C02.M', 'check_lookup_datatypes', f"line {getattr(u.node, 'lineno', 0)}", str(u))
-    try:
-        check_names(ctx, rep)
-    except Unsupported as u:
-        rep.undecided('C02.N', 'check_names', f"line {getattr(u.node, 'lineno', 0)}", str(u))
+def check_table_datatypes(ctx, rep):
+    """table-driven data types: with ambiguities off, partial() and encoding() select the same tip vector for each of the 128 code points"""
     m = ctx.prog.module(DT)
     for cname, states_name, amb_name, nstates in (('NucleotideDataType', 'NUCLEOTIDE_STATES', 'NUCLEOTIDE_AMBIGUITY_STATES', 4),
                                                   ('AminoAcidDataType', 'AMINO_ACIDS_STATES', 'AMINO_ACIDS_AMBIGUITY_STATES', 20)):
@@ -530,6 +547,30 @@ def run(ctx, rep):
                 bad.append((c, ch, part, col))
         rep.check('C02.M', f"{cname}::all-128-symbols-agree", not bad, W, {'checked': 128, 'first_disagreement': str(bad[:1])},
                   f"{cname}: symbol {bad[0][1]!r} gives tip partial {bad[0][2]} but the tip-state kernels select {bad[0][3]}" if bad else '')
+
+
+def run(ctx, rep):
+    rep.explanation = (
+        "C02.M: for every one of the 128 code points and both table-driven data types, the tip vector that partial(c, use_ambiguities=False) returns "
+        "(decided from the folded tables and the string literal of the missing-data branch) equals the column the tip-state kernels select for "
+        "encoding(c) clamped to the state count: one-hot for a definite state, the appended all-ones column otherwise.  Extracted facts: the literal "
+        "equals {c : STATES[c] < state_count}; the missing branch returns all ones; compress_alignment_states clamps at state_count; both tip-state "
+        "kernels append exactly one column of ones on the last axis of the tip matrices and gather on that axis."
+    )
+    rep.rule('C02.M', "tip-state and tip-partial (ambiguities off) representations select the same tip vector for every symbol")
+    rep.rule('C02.N', "name-to-index plumbing: sequences sorted into Taxa order by name, tips emitted in Taxa order by name, leaf index = position of the taxon label, "
+                      "polytomies resolved on every path before indexing, both root branches carry the merged length, no memo on the shared SitePattern that ignores an argument")
+    rep.not_decided += ["numerical invariance under permutations of taxa / sequences / children / columns", "rerooting invariance of the pruning itself (see C01 for the kernels)",
+                        "pattern compression weights (C01.W)"]
+    try:
+        check_lookup_datatypes(ctx, rep)
+    except Unsupported as u:
+        rep.undecided('C02.M', 'check_lookup_datatypes', f"line {getattr(u.node, 'lineno', 0)}", str(u))
+    try:
+        check_names(ctx, rep)
+    except Unsupported as u:
+        rep.undecided('C02.N', 'check_names', f"line {getattr(u.node, 'lineno', 0)}", str(u))
+    check_table_datatypes(ctx, rep)
     # clamp at state_count
     sp = ctx.prog.module('torchtree.evolution.site_pattern')
     fn = sp.functions.get('compress_alignment_states')
